@@ -655,6 +655,9 @@ fn check_node(n: &FNode, parent: Option<&FNode>, lay: &Layout, mode: Mode, out: 
     // unique names
     let mut seen: HashMap<[u8; 11], u32> = HashMap::new();
     for s in &l.slots {
+        if mode == Mode::Crash {
+            break;
+        }
         if s.kind == SlotKind::Live {
             if let Some(prev) = seen.insert(s.name(), s.off) {
                 let _ = prev;
@@ -664,7 +667,7 @@ fn check_node(n: &FNode, parent: Option<&FNode>, lay: &Layout, mode: Mode, out: 
         }
     }
     // dot entries
-    if !is_root {
+    if !is_root && mode == Mode::Live {
         let d0 = l.slots.first();
         let d1 = l.slots.get(1);
         let ok0 = matches!(d0, Some(s) if s.kind == SlotKind::Live && s.is_dot() && s.is_dir() && s.first(lay.fat32) == n.first);
